@@ -50,6 +50,23 @@ pub fn run_case(line: &str) -> String {
             }
             summarize(v, true)
         }
+        "mix" => {
+            // allocations interleaved with set_creation: `mix <id> <serial> <creation> a|c<creation> ...`
+            let (id, ser, cr): (u32, u64, u32) = (t[1].parse().unwrap(), t[2].parse().unwrap(), t[3].parse().unwrap());
+            let a = PidAllocator::new(Atom::new("n@h"), cr);
+            a.next_id_test_only().store(id, Ordering::SeqCst);
+            a.next_serial_test_only().store(ser, Ordering::SeqCst);
+            let mut out = Vec::new();
+            for op in &t[4..] {
+                if let Some(c) = op.strip_prefix('c') {
+                    a.set_creation(c.parse::<u32>().unwrap());
+                } else {
+                    let p = a.allocate().unwrap();
+                    out.push(format!("{}.{}.{}", p.id, p.serial, p.creation));
+                }
+            }
+            out.join(" ")
+        }
         "par" => {
             let (th, per, id, ser, cr): (usize, usize, u32, u64, u32) = (
                 t[1].parse().unwrap(), t[2].parse().unwrap(), t[3].parse().unwrap(), t[4].parse().unwrap(), t[5].parse().unwrap());
